@@ -124,6 +124,7 @@ type interpreter struct {
 	atlases      map[*value]*atlasRec
 	cborTypes    map[string]*atlasRec
 	handles      map[*value]iface
+	faultFn      value
 	preempts     int
 	idleWait     []*thread
 	stalled      []*thread
